@@ -279,6 +279,7 @@ func runC12(r *Rec) {
 		}
 	}
 	c12UpgradeWindow(r)
+	c12YearWindow(r)
 	r.Mark("c12 done")
 	r.Extra["rule"] = "states populated by real block histories (bank, identity, polls, proposals with votes in different phases, staking pools and delegations, custody records in every second state), exported with ExportAppStateAndValidators and imported into a fresh application by InitChain; raw key/value comparison of every module store, differences grouped by record kind (store + key prefix + lost/invented/changed)"
 }
@@ -494,4 +495,37 @@ func c12JSONDiff(a, b []byte) string {
 		out = out[:3]
 	}
 	return strings.Join(out, " | ")
+}
+
+// c12YearWindow: a chain run over more than a year of block time in steps of days, exported and re-imported at every
+// height between day 340 and day 380 after genesis: the distributor's year-start snapshot (renewed after 360 days) and
+// its periodic snapshot (renewed after the inflation period, 365.25 days by default) are out of step in that window, the
+// UBI records and spending pools are between two payouts.
+func c12YearWindow(r *Rec) {
+	r.Mark("inflation-year window")
+	w := NewWorld(WorldOpts{NAcc: 4, NVal: 2, SudoAccs: []int{3}})
+	day := 24 * time.Hour
+	step := func(dt time.Duration) bool {
+		br := w.Block(nil, BlockOpts{Dt: dt})
+		if br.Panicked != nil {
+			r.Count("year-window:panicked")
+			return false
+		}
+		w.ApplyUpdates(br.Updates)
+		return true
+	}
+	for d := 0; d < 34; d++ { // 340 days in steps of ten
+		if !step(10 * day) {
+			return
+		}
+	}
+	n := 0
+	for d := 340; d < 380; d += 2 {
+		if !step(2 * day) {
+			return
+		}
+		n++
+		c12RoundTrip(r, w, fmt.Sprintf("inflation-year-window(day %d)@block%d", d+2, w.height))
+	}
+	r.Count(fmt.Sprintf("year-window:round-trips=%d", n))
 }
